@@ -39,4 +39,9 @@ m = {
     "notes": "Every check: regenerate facts from /repo -> lake build the property's theorems and ties -> #print axioms audit -> build harness from /repo with -tags verif -> correspondence + oracle suites -> classification against KNOWN_FINDINGS.txt -> evidence. See DESIGN.md.",
 }
 json.dump(m, open(os.path.join(os.path.dirname(os.path.abspath(__file__)), "..", "MANIFEST.json"), "w"), indent=1)
+cats = {"exploration", "fault_enumeration", "model_checking", "proof", "translation_validation", "other"}
+bad = [c["property_id"] for c in checks if c["level_claimed"]["category"] not in cats]
+if bad:
+    print("INVALID level category in", bad)
+    sys.exit(1)
 print("MANIFEST.json: %d checks, %d not_applicable" % (len(checks), len(m["not_applicable"])))
